@@ -38,8 +38,10 @@ def conformance_pass(ctx, trace):
     drift = re.findall(r'<<"DRIFT", (\d+), "(\w+)">>', out)
     if m:
         tot, okn = int(m.group(1)), int(m.group(2))
-        ctx.cov["conformance"] = {"reconciles_compared": tot, "conformant": okn, "drift_lines": [int(x[0]) for x in drift[:20]], "wall_s": round(dt, 1),
-                                  "meaning": "recorded reconciles of the real code that are outcomes of the decision procedures in spec/Ctrl.tla (the bodies of the model's reconcile actions); 100% means the exhaustive design pass speaks about the code as it behaved here"}
+        prev = ctx.cov.get("conformance", {"reconciles_compared": 0, "conformant": 0, "drift_lines": [], "wall_s": 0})
+        ctx.cov["conformance"] = {"reconciles_compared": prev.get("reconciles_compared", 0) + tot, "conformant": prev.get("conformant", 0) + okn,
+                                  "drift_lines": prev.get("drift_lines", []) + [int(x[0]) for x in drift[:20]], "wall_s": round(prev.get("wall_s", 0) + dt, 1),
+                                  "meaning": "recorded reconciles of the real code (scenario / walk traces and replayed model schedules) that are outcomes of the decision procedures in spec/Ctrl.tla (the bodies of the model's reconcile actions); 100% means the exhaustive design pass speaks about the code as it behaved here"}
         if tot != okn:
             vcheck.log("DRIFT property=%s %d of %d recorded reconciles are not outcomes of the model (non-convicting, see evidence)" % (ctx.pid, tot - okn, tot))
 
